@@ -189,6 +189,10 @@ func main() {
 		if bytes.Contains(out, []byte("\nVIOLATION property=")) {
 			exit(1)
 		}
+		if err != nil && (bytes.Contains(out, []byte("fatal error:")) || bytes.Contains(out, []byte("SIGSEGV")) || bytes.Contains(out, []byte("unexpected fault address"))) {
+			fmt.Printf("VIOLATION property=%s replay=%s\n  detail: replaying the case kills the process with a fatal runtime error\n", ID, rp)
+			exit(1)
+		}
 		if err != nil {
 			exit(2)
 		}
